@@ -325,8 +325,13 @@ def gen_cases(seed, tier, unsafe_share=True):
         extra = ''
         if rng.below(3) == 0:
             extra += ' bufsz=%d' % rng.choice([0, 1, 16, 48, 64, 512, 4096, 1 << 20])
-        if rng.below(4) == 0:
+        api_draw = rng.below(4)
+        if api_draw == 0:
             extra += ' api=1'
+        elif api_draw == 1 and k % 2:
+            # every builder called twice, first with other values: the LAST call must win (no appended `rng` draw: api_draw is
+            # the draw that was there before)
+            extra += ' api=2'
         cases.append(spec('g%d' % k, v, mn, mx, rate, unsafe, ext, buf, muts, src, extra))
         k += 1
     # a used generator: the same kind of case after earlier (unrecorded) calls on the same object - every suite that reads the
@@ -503,6 +508,10 @@ def generated_paths():
             if v >= 2:
                 al += ['GLOBAL;EMPTY_TUPLE;REDUCE;EMPTY_DICT;BUILD;%s;%s;TUPLE1;BUILD' % (pu, ge),
                        'GLOBAL;EMPTY_TUPLE;REDUCE;EMPTY_DICT;BUILD;%s;EMPTY_DICT;%s;TUPLE1;NONE;SETITEM;BUILD' % (pu, ge)]
+        # more than 1 024 memo definitions in ONE pickle (the powers of two where a table, an index width or a cap may change)
+        if v in (0, 2, 4):
+            putop = 'PUT' if v == 0 else 'LONG_BINPUT' if v == 2 else 'MEMOIZE'
+            al += ['NONE;%s*1030;%s;%s;POP;NONE' % (putop, 'PUT', 'GET')]
         # GARBAGE cycles amid volume: a cycle whose only owners are its own cells (popped off the stack at once), before, between
         # and after many more in-place modifications of other containers - whatever book-keeping the release of cycles rests on
         # (a registry that is pruned, compacted, capped or re-hashed as it grows) meets it here; S7 requires 0 bytes live after drop
@@ -796,10 +805,18 @@ def steer_search(res, log, limit=16, s8res=None):
             continue
         hist_ops = [st_[3] for st_ in steps[:step] if st_[1] == 'B']
         ndrift += 1
-        for x in TYPED:
-            fid = 'drift%d_%s' % (ndrift, x)
+        # directly after the drifting step, and after ONE more push of each common kind (a typed opcode with two operands needs
+        # a second one of the right - simulated - kind next to the drifted slot)
+        vv = vof(cid)
+        pres = [None, 'NONE', 'EMPTY_TUPLE' if vv >= 1 else None, 'EMPTY_DICT' if vv >= 1 else None, 'MARK',
+                'SHORT_BINUNICODE' if vv >= 4 else 'BINUNICODE' if vv >= 1 else 'UNICODE', 'BININT1' if vv >= 1 else 'INT']
+        for x, pre in [(x_, p_) for p_ in dict.fromkeys(pres) for x_ in TYPED]:
+            hops = hist_ops + ([pre] if pre else [])
+            fid = 'drift%d_%s%s' % (ndrift, x, ('_after_' + pre) if pre else '')
             sline = 'id=%s %s min=%d max=%d path=%s final=%s' % (fid, ' '.join(w for w in line.split() if re.match(r'(v|rate|unsafe|ext|buf|muts)=', w)),
-                                                               len(hist_ops) + 1, len(hist_ops) + 1, ';'.join(hist_ops) or '-', x)
+                                                               len(hops) + 1, len(hops) + 1, ';'.join(hops) or '-', x)
+            if len(props) >= 12:
+                break
             cp = os.path.join(tmp, 'steer_hist.txt')
             open(cp, 'w').write(sline + '\n')
             q = subprocess.run([HBIN, 'steer', cp], stdout=subprocess.PIPE, stderr=subprocess.PIPE, text=True, env=ENV, timeout=600)
@@ -1931,7 +1948,7 @@ def gen_s8_cases(seed, tier):
     memo_ops = ['PUT', 'BINPUT', 'LONG_BINPUT', 'MEMOIZE', 'GET', 'BINGET', 'LONG_BINGET', 'DUP', 'POP']
     big_srcs = [srcs[1], 'ff' * 40, '00' * 40, '63' * 40, 'e7030000' * 10]
     for v in range(6):
-        for size in (10, 99, 100, 101, 255, 256, 257, 999, 1000, 1001) if tier == 'quick' else (10, 99, 100, 101, 254, 255, 256, 257, 300, 999, 1000, 1001, 4096, 10000):
+        for size in (10, 99, 100, 101, 255, 256, 257, 999, 1000, 1001, 1023, 1024, 1025, 2048, 4096) if tier == 'quick' else (10, 99, 100, 101, 127, 128, 254, 255, 256, 257, 300, 511, 512, 999, 1000, 1001, 1023, 1024, 1025, 2047, 2048, 4095, 4096, 9999, 10000, 65535, 65536):
             memo = ','.join('%d:%s' % (i, 'ISLD'[i % 4]) for i in range(size))
             for si, st in enumerate(('S', 'L', 'MI', '-')):
                 for bi, bsrc in enumerate(big_srcs if si == 0 else big_srcs[:2]):
